@@ -20,7 +20,7 @@ import ast
 
 from ..engine.model import AnalysisError, src, walk_own
 from ..engine.flow import Flow
-from ..engine.inline import Inliner
+from ..engine.inline import Inliner, cmp_parts
 from ..engine.typestate import EventDomain
 from .common_ops import check_dunders, single_assignments, unwrap
 
@@ -289,6 +289,19 @@ class Checker:
                        ('changeFrame is applied to %s itself (operand mutated)' % src(recv) if not is_copy else
                         'right operand converted into %s, not into the left operand\'s frame' % (src(c.args[0]) if c.args else '?')),
                        line=c.lineno)
+            # in the different-frame branch the right operand's payload is only read through the object changeFrame returned
+            for ifn in [x for x in walk_own(fi.node) if isinstance(x, ast.If)]:
+                cp = cmp_parts(ifn.test, left=lambda t: t.endswith('.frame_applied'))
+                if cp is None or cp[1] not in ('==', '!=') or not cp[2].endswith('.frame_applied'):
+                    continue
+                diff_branch = ifn.orelse if cp[1] == '==' else ifn.body
+                raw = [x for st_ in diff_branch for x in ast.walk(st_) if isinstance(x, ast.Attribute) and x.attr == 'data'
+                       and isinstance(x.value, ast.Name) and x.value.id == other]
+                n += 1
+                rep.ob('R12.4', fi, '%s: operands in different frames are reconciled through changeFrame' % meth, not raw,
+                       'in the different-frame branch the payload `%s.data` is combined directly (line %d): the frames are reconciled inline with one '
+                       'fixed rule, but Wrench inherits %s and changes frame with the dual rule (Ad^T of the inverse transition), so wrenches in '
+                       'translated frames get wrong values' % (other, raw[0].lineno if raw else 0, meth), line=ifn.lineno)
             # the mixed-frame branch exists: a frame comparison guards it
             has_cmp = any(isinstance(x, ast.Compare) and 'frame_applied' in src(x) for x in walk_own(fi.node))
             rep.ob('R12.4', fi, 'frame comparison before combining payloads', has_cmp,
@@ -300,7 +313,7 @@ class Checker:
                     fr = Inliner(fi).text(r.value.args[1])
                     rep.ob('R12.4', fi, 'result frame of ' + src(r.value)[:60], fr in ('self.frame_applied', 'self.frame_applied.copy()'),
                            'result is labelled with frame %s, not the left operand\'s' % fr, line=r.lineno)
-        rep.floor('R12.4', 'frame reconciliation sites', n, 4)
+        rep.floor('R12.4', 'frame reconciliation sites', n, 6)
         wc = self.wrench.methods.get('_wrenchConverter')
         if wc is not None:
             for r in [x for x in walk_own(wc.node) if isinstance(x, ast.Return) and isinstance(x.value, ast.Call) and src(x.value.func) == 'Wrench']:
